@@ -303,6 +303,93 @@ def kf_matcher(fid: str, open_ids: List[str]):
     return match
 
 
+# ------------------------------------------------------------------------- string / bytes literals
+SYM = {"sq": "'", "dq": '"', "bs": "\\", "nl": "\n", "tab": "\t", "cr": "\r", "ff": "\f", "vt": "\v", "nul": "\0",
+       "esc": "\x1b", "uni": "\xe9", "sur": "\ud800"}
+STR_ALPHABET = ["a", " ", "sq", "dq", "bs", "nl", "tab", "cr", "ff", "vt", "nul", "esc", "uni", "sur"]
+BYTES_ALPHABET = ["a", " ", "sq", "dq", "bs", "nl", "tab", "cr", "nul", "esc", "uni"]
+STR_FINDINGS = ["str-nul-dropped", "bytes-single-quote"]
+
+
+def sym_text(seq: List[str]) -> str:
+    return "".join(SYM.get(x, x) for x in seq)
+
+
+def shown_pyval(e: Any, linelen: int, maxlines: int, lbok: bool) -> Tuple[str, bool]:
+    from pydoctor.epydoc.markup._pyval_repr import colorize_pyval
+    from pydoctor import node2stan
+    d = colorize_pyval(e, linelen=linelen, maxlines=maxlines, linebreakok=lbok)
+    return "".join(node2stan.gettext(d.to_node())), d.is_complete
+
+
+def literal_value(text: str) -> Any:
+    try:
+        return ast.literal_eval(text)
+    except (SyntaxError, ValueError):
+        return _INVALID
+
+
+_INVALID = object()
+
+
+def run_strings(ctx: Ctx, open_ids: List[str], fixed_ids: List[str], stats: Dict[str, int]) -> None:
+    maxlen = 3 if ctx.quick else 4
+    cfg = (f"SPECIFICATION Spec\nCONSTANTS StrAlphabet = {tla(set(STR_ALPHABET))}\n"
+           f"          BytesAlphabet = {tla(set(BYTES_ALPHABET))}\n          MaxLen = {maxlen}\n"
+           f"          Open = {tla(set(open_ids))}\n          Fixed = {tla(set(fixed_ids))}\n"
+           "CONSTRAINT Emit\nINVARIANT DesignKnown\n")
+    r = ctx.tlc("ExprStr", cfg, workers="auto", extra=["-continue"], timeout=900)
+    if r.errors or (r.rc != 0 and not r.violated):
+        raise MachineryError(f"TLC failed on ExprStr: {r.errors[:3]}\n" + "\n".join(r.out.splitlines()[-25:]))
+    if len(r.printed) != r.distinct:
+        raise MachineryError(f"ExprStr: {r.distinct} cases but {len(r.printed)} records")
+    ctx.extra["string_design_level_invariants_violated"] = sorted(set(r.violated))
+    for rec in r.printed:
+        by, lbok = rec["by"], rec["lbok"]
+        val_s = sym_text(list(rec["val"]))
+        value: Any = val_s.encode("latin-1") if by else val_s
+        model = sym_text(list(rec["shown"]))
+        # the reference reader against CPython (on the model's text)
+        py = literal_value(model)
+        ref_dec = rec["dec"]
+        ref_val: Any = _INVALID if list(ref_dec) == ["INVALID"] else (
+            sym_text(list(ref_dec)).encode("latin-1") if by else sym_text(list(ref_dec)))
+        if not (py is ref_val or (type(py) is type(ref_val) and py == ref_val)):
+            raise MachineryError(f"ExprStr.tla!PyDecode disagrees with ast.literal_eval on {model!r}: {ref_val!r} vs {py!r}")
+        shown, complete = shown_pyval(ast.Constant(value), 0, 0, lbok)
+        ctx.traces += 1
+        stats["strings"] += 1
+        drift = shown != model
+        if drift:
+            stats["drift"] += 1
+            ctx.drift_note({"value": repr(value), "lbok": lbok, "model": model, "real": shown})
+        got = literal_value(shown)
+        ok = complete and type(got) is type(value) and got == value
+        classes = sorted(rec["cls"])
+        if not ok:
+            stats["violations"] += 1
+            vk = f"literal:{'+'.join(classes) or 'UNEXPLAINED'}:{'drift' if drift else 'as-modelled'}"
+            byclass = ctx.extra.setdefault("violations_by_class", {})
+            byclass[vk] = byclass.get(vk, 0) + 1
+            ctx.extra.setdefault("violation_examples", {}).setdefault(vk, f"{value!r}  ->  {shown!r}")
+            ctx.violation({"invariant": "LiteralValue", "origin": "literal", "input": repr(value), "linebreakok": lbok,
+                           "observed": {"shown": shown, "is_complete": complete,
+                                        "reads_back_as": "not a literal" if got is _INVALID else repr(got)},
+                           "expected": "ast.literal_eval(shown) == value", "design_classes": classes,
+                           "model_text": model, "drift": drift,
+                           "key": f"lit:{classes}:{repr(value) if not classes or drift else ''}"})
+        if stats["strings"] % 2000 == 7:
+            ctx.sample({"value": repr(value), "linebreakok": lbok, "shown": shown})
+
+
+def kf_literal(fid: str, open_ids: List[str]):
+    def match(w: Dict[str, Any]) -> bool:
+        cl = w.get("design_classes") or []
+        return (w.get("invariant") == "LiteralValue" and not w.get("drift") and fid in cl
+                and all(c in open_ids for c in cl))
+    return match
+
+
 # ------------------------------------------------------------------------------ random deeper trees
 def gen_tree(rng: random.Random, depth: int) -> Dict[str, Any]:
     N = lambda k, op, kids: {"k": k, "op": op, "kids": kids}
@@ -367,9 +454,11 @@ def run(ctx: Ctx) -> int:
     open_ids, fixed_ids = finding_status()
     for fid in FINDINGS:
         ctx.register_matcher(fid, kf_matcher(fid, open_ids))
+    for fid in STR_FINDINGS:
+        ctx.register_matcher(fid, kf_literal(fid, open_ids))
     check_astor_table(ctx)
     stats = {k: 0 for k in ("seen", "drift", "design_bad", "violations", "incomplete", "necessity_checked",
-                            "design_bad_but_real_ok")}
+                            "design_bad_but_real_ok", "strings")}
     design_violated: List[str] = []
 
     def tlc_cases(mode: str, cmp_used: List[str], env: Optional[Dict[str, str]] = None) -> List[Dict[str, Any]]:
@@ -404,6 +493,8 @@ def run(ctx: Ctx) -> int:
             judge_tree(ctx, rec, "random", stats)
             nfile += 1
     ctx.extra["random_deeper_trees"] = nfile
+    # ---- string / bytes literals (ExprStr.tla)
+    run_strings(ctx, open_ids, fixed_ids, stats)
     ctx.extra["expr_stats"] = stats
     ctx.extra["design_level_invariants_violated"] = design_violated
     ctx.extra["known_finding_ids"] = {"open": open_ids, "fixed": fixed_ids}
